@@ -38,7 +38,19 @@ RULE = ("SPD systems A = Z^T Z (+ R) + k I, n = 1..8, integer or quarter entries
         "fix_constraint step) through fnnls_cholesky (cold / production warm start / masks), reconstruction_positive_only_from and "
         "aa.Inversion (identity-mapping mapper; left-right symmetric Imaging on Rectangular meshes, corpus seeds); linear_obj_list orders "
         "fm, fmf, ffm, mfm, fmm, mf, fmfm, m with both forced lists non-empty (mock and Rectangular mappers). Cases with a decision on a "
-        "tie are evaluated specification-only (KSpec), never dropped. Non-trivial = the unconstrained solution has at least one negative and one positive entry (the active set "
+        "tie are evaluated specification-only (KSpec), never dropped. Phase 4 streams: (i) rare active-set paths built deliberately -- >= 3 "
+        "consecutive iterations in which one parameter enters and a different one leaves, followed by further iterations (2-d `fan` of columns with "
+        "geometrically falling norms closing in on the data direction, optionally a weakly coupled second block; n = 6..25; plus the corpus systems "
+        "swap_*.json found offline in random correlated / PSF-like / low-rank families, conjugated by random permutations), selected by an independent "
+        "float reference run of the active-set method, for the cold and the production warm start, through fnnls_cholesky, "
+        "reconstruction_positive_only_from (explicit and shared-default settings) and aa.Inversion (identity mapping matrix; also as the system left after "
+        "removing forced edge parameters); (ii) larger systems n = 9..25 (Gram / correlated / PSF-like / low-rank / banded), specification only; "
+        "(iii) A * 2^(+-12), b * 2^(-10, 10, 20) scalings; (iv) histories on every solver case: arguments fingerprinted before/after, the call repeated "
+        "through the same array objects with two neighbour systems solved in between (their outputs go through the certificate too), the system "
+        "passed as a Fortran-ordered / strided-view / read-only / integer-dtype array, omitted P_initial and omitted settings (shared default objects); "
+        "on every Inversion: .reconstruction read twice, curvature_reg_matrix / data_vector / settings fingerprinted, a second Inversion built from the "
+        "same linear objects and the same settings object with negated data (and, for settings read from general.yaml, with use_positive_only_solver "
+        "flipped in the pushed configuration). Non-trivial = the unconstrained solution has at least one negative and one positive entry (the active set "
         "is neither empty nor full) or the case is an Inversion; distinct = distinct JSON input.")
 TRUSTED = ["hand-written Gallina model coq/Model/C05.v (active-set loops of fnnls.py, wrappers of inversion_util.py / abstract.py), tied to "
            "/repo by this correspondence run: implementation output vs exact rational model output, |diff| <= 1e-9 max(1,|model|), "
@@ -48,6 +60,9 @@ TRUSTED = ["hand-written Gallina model coq/Model/C05.v (active-set loops of fnnl
            "(Model/C05Chol.v) and proved to preserve U^T U = A[P_inorder, P_inorder]; the contract is also asserted numerically on every call "
            "the implementation makes during the run, and a sample of the calls is replayed in Coq (KChol cases)",
            "Python-side exact mirror (fractions) used only to measure decision margins; never used to decide agreement",
+           "Python-side float reference run of the active-set method (ref_path) used only to SELECT inputs with a rare path shape and to tally path "
+           "shapes; a sys.setprofile hook that reads the locals no_update / max_repetitions of fnnls_cholesky at its return, for the evidence "
+           "only (implementation_loop_exit_tally); neither decides agreement",
            "doubles: systems are small integers / quarters; comparisons under tolerance; where a decision lies within 1e-6 of its threshold only the "
            "specification (KKT certificate, tolerance 1e-8 max(1,|b|)) is evaluated on the implementation's output"]
 ASSUMPTIONS = ["real arithmetic (no rounding); theorems over R", "termination of the active-set loops is not proved (explicit fuel = the code's "
@@ -55,20 +70,31 @@ ASSUMPTIONS = ["real arithmetic (no rounding); theorems over R", "termination of
 
 EPS = 2.2204e-16
 BAND = Fraction(1, 10 ** 6)
-STATS = {"chol_contract_calls": 0, "chol_contract_max_residual": 0.0, "solver_runs": 0, "runs_with_prune_step": 0,
+STATS = {"chol_contract_calls": 0, "chol_contract_max_residual": 0.0, "solver_runs": 0, "runs_with_prune_step": 0, "runs_with_2plus_prune_rounds": 0,
          "runs_with_inner_fix_step": 0, "runs_with_2plus_inner_fix_steps": 0, "runs_with_multi_delete_step_exact": 0, "outer_iterations": 0,
          # measured on the implementation (wrapper around the choldeleteindexes that fnnls.py calls)
          "chol_cases_in_coq": 0, "chol_calls_too_deep_for_coq": 0, "impl_solver_runs_watched": 0, "impl_delete_calls": 0, "impl_delete_calls_2plus": 0, "impl_runs_deleting_2plus_in_one_step": 0,
          "impl_runs_deleting_3plus_in_one_step": 0, "impl_max_deleted_in_one_step": 0,
          "glue_cases_nonmapper_before_mapper": 0, "glue_cases_nonmapper_before_mapper_with_forced_edge_and_zero_lists": 0,
-         "glue_..._of_which_rectangular_mappers": 0, "glue_..._of_which_mock_mappers": 0}
+         "glue_..._of_which_rectangular_mappers": 0, "glue_..._of_which_mock_mappers": 0,
+         # shapes of the active-set path according to the reference run (ref_path), over every solver case of the run
+         "ref_path": {"runs": 0, "runs_not_finished_by_the_reference_run": 0, "runs_with_3plus_consecutive_swap_iterations": 0, "runs_with_3plus_consecutive_swap_iterations_followed_by_more": 0, "runs_with_4plus_consecutive_swap_iterations": 0,
+                      "runs_with_3plus_consecutive_non_growing_iterations": 0, "runs_with_more_than_10_outer_iterations": 0, "runs_with_6plus_fix_constraint_steps": 0, "max_fix_constraint_steps": 0,
+                      "runs_where_a_removed_parameter_re_enters": 0, "max_consecutive_swap_iterations": 0, "max_outer_iterations": 0},
+         "mirror_exits_through_no_update_break": 0,
+         "impl_exit": {"observed": 0, "through_the_no_update_break": 0, "raised": 0, "not_observable_locals_renamed": 0},
+         "history": {"second_evaluations_same_arrays": 0, "neighbour_systems_between_evaluations": 0, "argument_fingerprints": 0,
+                     "input_kind_variants": {}, "second_inversions_same_objects": 0, "second_inversions_config_flipped": 0,
+                     "default_settings_calls": 0}}
 CHOL_BUDGET = [120]     # number of Cholesky-update calls turned into Coq cases (set per tier by gen_inputs)
+CHOL_MAXROT = [3]       # deepest deletion replayed in Coq: 3 rotations cost about 20 s of exact rational square roots each (quick tier: 2)
 SKIPPED = {}        # reason -> number of cases not evaluated at all
 SPEC_ONLY = {}      # reason -> number of cases where only the specification was evaluated on the implementation's output (KSpec)
 def note(d, reason): d[reason] = d.get(reason, 0) + 1
 def tally(m):
     STATS["solver_runs"] += 1; STATS["outer_iterations"] += m.n_outer
     if m.n_prune: STATS["runs_with_prune_step"] += 1
+    if m.n_prune >= 2: STATS["runs_with_2plus_prune_rounds"] += 1
     if m.n_inner: STATS["runs_with_inner_fix_step"] += 1
     if m.n_inner >= 2: STATS["runs_with_2plus_inner_fix_steps"] += 1
     if m.n_multi: STATS["runs_with_multi_delete_step_exact"] += 1
@@ -77,12 +103,14 @@ def extra_evidence():
     return {"skipped_by_reason": dict(SKIPPED), "skipped_total": sum(SKIPPED.values()),
             "spec_only_by_reason": dict(SPEC_ONLY), "spec_only_total": sum(SPEC_ONLY.values()),
             "cholesky_contract_calls": STATS["chol_contract_calls"], "cholesky_update_calls_checked_in_coq": STATS["chol_cases_in_coq"],
-            "cholesky_delete_calls_not_replayed_in_coq_more_than_3_rotations": STATS["chol_calls_too_deep_for_coq"],
+            "cholesky_delete_calls_not_replayed_in_coq_more_than_3_rotations": STATS["chol_calls_too_deep_for_coq"], "cholesky_delete_max_rotations_replayed_in_coq": CHOL_MAXROT[0],
             "cholesky_contract_max_residual": STATS["chol_contract_max_residual"],
-            "branch_tally": {k: STATS[k] for k in ("solver_runs", "runs_with_prune_step", "runs_with_inner_fix_step",
+            "branch_tally": {k: STATS[k] for k in ("solver_runs", "runs_with_prune_step", "runs_with_2plus_prune_rounds", "runs_with_inner_fix_step",
                                                    "runs_with_2plus_inner_fix_steps", "runs_with_multi_delete_step_exact", "outer_iterations")},
             "implementation_delete_tally": {k: STATS[k] for k in STATS if k.startswith("impl_")},
-            "glue_order_tally": {k: STATS[k] for k in STATS if k.startswith("glue_")}}
+            "glue_order_tally": {k: STATS[k] for k in STATS if k.startswith("glue_")},
+            "reference_path_tally": dict(STATS["ref_path"]), "mirror_exits_through_no_update_break": STATS["mirror_exits_through_no_update_break"],
+            "history_tally": dict(STATS["history"]), "implementation_loop_exit_tally": dict(STATS["impl_exit"])}
 
 # --------------------------------------------------------------------------------------------- exact mirror (margins only)
 def gauss(A, b):
@@ -174,7 +202,8 @@ class Mirror:
             lc += 1
             if lc > 10000: return None
             nu = nu + 1 if cur == P else 0
-            if nu >= 3: self.margin = Fraction(0); break     # only reachable through a degenerate (in-band) state
+            if nu >= 3:      # only reachable through a degenerate (in-band) state
+                self.margin = Fraction(0); STATS["mirror_exits_through_no_update_break"] += 1; break
         return d
 
 def margin_pos_only(A, b, uses_p):
@@ -191,6 +220,228 @@ def margin_pos_only(A, b, uses_p):
     m.fnnls(A, b, tau, pinit)
     tally(m)
     return m.margin
+
+# --------------------------------------------------------------------------------------------- reference active-set run (floats)
+def ref_path(A, b, pinit=None):
+    """Independent float re-run of the active-set method (plain numpy solves, no Cholesky updates, no no_update counter).  It is used
+    ONLY to select inputs whose active-set path has a rare shape and to tally those shapes in the evidence -- never to decide agreement.
+    Returns (d, path); path[k] = (entered index, [indices removed during outer iteration k], entered index still passive at its end,
+    number of fix_constraint steps of the iteration)."""
+    A = np.asarray(A, dtype=float); b = np.asarray(b, dtype=float)
+    n = len(b); tol = EPS * n
+    P = np.zeros(n, bool); d = np.zeros(n); s = np.zeros(n); path = []
+    try:
+        if pinit is not None and len(pinit):
+            P[:] = pinit
+            if P.any(): s[P] = np.linalg.solve(A[P][:, P], b[P])
+            while P.any() and s[P].min() <= tol:
+                P[s <= tol] = False; s[:] = 0
+                if P.any(): s[P] = np.linalg.solve(A[P][:, P], b[P])
+            d = s.copy()
+        w = b - A @ d
+        while (not P.all()) and w[~P].max() > tol:
+            P0 = P.copy()
+            j = int(np.argmax(w * ~P)); P[j] = True
+            s[:] = 0; s[P] = np.linalg.solve(A[P][:, P], b[P])
+            inner = 0
+            while P.any() and s[P].min() <= tol:
+                q = P & (s <= tol)
+                step = d[q] - s[q]; ratio = np.zeros(step.shape); np.divide(d[q], step, out=ratio, where=step != 0)
+                d = d + ratio.min() * (s - d)
+                P[d <= tol] = False
+                s[:] = 0
+                if P.any(): s[P] = np.linalg.solve(A[P][:, P], b[P])
+                inner += 1
+                if inner > 500: return None, path
+            d = s.copy(); w = b - A @ d
+            path.append((j, [int(i) for i in np.where(P0 & ~P)[0]], bool(P[j]), inner))
+            if len(path) > 200: return None, path
+    except np.linalg.LinAlgError:
+        return None, path
+    return d, path
+
+def swap_run(path):
+    """longest run of consecutive outer iterations in which one parameter enters and a DIFFERENT one leaves (|P| unchanged, P changed)"""
+    best = cur = 0
+    for j, rem, kept, *_ in path:
+        if kept and len(rem) == 1: cur += 1; best = max(best, cur)
+        else: cur = 0
+    return best
+
+def swaps_then_more(path, k=3):
+    """longest run of consecutive swap iterations that is FOLLOWED by at least one more outer iteration (the state after the run is not
+    yet optimal: leaving the loop there -- a stall test that is too coarse -- returns a non-KKT vector); 0 if shorter than k"""
+    best = cur = 0
+    for t, (j, rem, kept, *_) in enumerate(path):
+        if kept and len(rem) == 1:
+            cur += 1
+            if t < len(path) - 1: best = max(best, cur)
+        else: cur = 0
+    return best if best >= k else 0
+
+def nogrow_run(path):
+    """longest run of consecutive outer iterations at whose end |P| has not grown"""
+    best = cur = 0
+    for j, rem, kept, *_ in path:
+        if (1 if kept else 0) - len(rem) <= 0: cur += 1; best = max(best, cur)
+        else: cur = 0
+    return best
+
+def reentries(path):
+    """number of times a parameter that was removed earlier enters the passive set again"""
+    gone = set(); k = 0
+    for j, rem, kept, *_ in path:
+        if j in gone: k += 1
+        gone |= set(rem)
+        if not kept: gone.add(j)
+    return k
+
+def tally_path(A, b, pinit):
+    d, path = ref_path(flm(A), np.array(fl(b)), pinit)
+    R = STATS["ref_path"]
+    if d is None: R["runs_not_finished_by_the_reference_run"] += 1; return 0
+    R["runs"] += 1
+    sr = swap_run(path); ng = nogrow_run(path)
+    if sr >= 3: R["runs_with_3plus_consecutive_swap_iterations"] += 1
+    if swaps_then_more(path): R["runs_with_3plus_consecutive_swap_iterations_followed_by_more"] += 1
+    if sr >= 4: R["runs_with_4plus_consecutive_swap_iterations"] += 1
+    if ng >= 3: R["runs_with_3plus_consecutive_non_growing_iterations"] += 1
+    if len(path) > 10: R["runs_with_more_than_10_outer_iterations"] += 1
+    fs = sum(p_[3] for p_ in path)
+    if fs >= 6: R["runs_with_6plus_fix_constraint_steps"] += 1
+    R["max_fix_constraint_steps"] = max(R["max_fix_constraint_steps"], fs)
+    if reentries(path): R["runs_where_a_removed_parameter_re_enters"] += 1
+    R["max_consecutive_swap_iterations"] = max(R["max_consecutive_swap_iterations"], sr)
+    R["max_outer_iterations"] = max(R["max_outer_iterations"], len(path))
+    return sr
+
+def fan_system(rng, n, nfans=None):
+    """Directed generator for the rare active-set path `one enters, a different one leaves` repeated several times in a row.
+    A `fan` is a pair of rows of Z: chain columns z_j = r_j (cos t_j, sin t_j) with angles t_1 > t_2 > ... > 0 closing in on the data
+    direction (1, 0) with shrinking gaps and norms r_j falling geometrically: the arg-max of the gradient picks the next LARGER column,
+    the sub-problem on {previous, new} has the data outside its cone, so the previous column leaves as the new one enters -- one swap per
+    chain column (the dynamic range r_1 / r_L costs condition number, which limits one fan to about 4 swaps at cond <= 5e4).
+    Several fans on disjoint row pairs (block structure, weakly coupled) interleave their swaps: longer runs of consecutive swap
+    iterations, more fix_constraint steps and more outer iterations in one call, |P| > 2 while the swaps happen.
+    Decoration: columns behind a chain (never picked), shadowed copies of chain columns (smaller norm), a few random ones, and optionally
+    an extra block of ordinary columns on extra rows.  A = Z^T Z + k I with entries in 1/256 units (exact doubles), b = Z^T x + e with a
+    small negative e on the chains (keeps them out of the warm-start set, so the production warm start walks the same path).
+    Whether a system really has the path is decided by `ref_path`, not assumed."""
+    import math
+    unit = 16
+    if nfans is None: nfans = 1 if n < 12 else (rng.choice([1, 2, 2]) if n < 18 else rng.choice([1, 2, 3, 3]))
+    me = rng.choice([0, 0, 0, 1, 2])                       # extra rows
+    ne = rng.randint(1, 3) if me and n >= 8 + 4 * nfans else 0          # extra columns (ordinary block)
+    nf = n - ne
+    sizes = [nf // nfans + (1 if f < nf % nfans else 0) for f in range(nfans)]
+    m = 2 * nfans + me
+    noise = rng.random() < 0.75
+    Zc = []; e = []
+    for f, sz in enumerate(sizes):
+        L = rng.randint(4, min(sz, 8))
+        g = rng.uniform(0.45, 0.8); q = rng.uniform(1.4, 2.4)
+        t0 = rng.uniform(55, 88); gap = t0 * (1 - g) * rng.uniform(0.8, 1.0)
+        t = [t0]
+        for j in range(1, L): t.append(t[-1] - gap); gap *= g
+        R = rng.uniform(20, 60)
+        cols = [(R / q ** j, t[j]) for j in range(L)]; kinds = ["c"] * L
+        while len(cols) < sz:
+            u = rng.random()
+            if u < 0.4: cols.append((rng.uniform(1, R), rng.uniform(95, 175))); kinds.append("b")
+            elif u < 0.8:
+                j = rng.randrange(L); cols.append((R / q ** j * rng.uniform(0.2, 0.8), t[j] + rng.uniform(-2, 2))); kinds.append("s")
+            else: cols.append((rng.uniform(1, 6), rng.uniform(t0, 180))); kinds.append("o")
+        for (r, a), kd in zip(cols, kinds):
+            col = [Fraction(rng.randint(-1, 1), 4) if (rng.random() < 0.15 and nfans > 1) else Fraction(0) for _ in range(m)]    # weak coupling between fans
+            col[2 * f] = Fraction(round(r * math.cos(math.radians(a)) * unit), unit)
+            col[2 * f + 1] = Fraction(round(r * math.sin(math.radians(a)) * unit), unit)
+            for r_ in range(2 * nfans, m):
+                if rng.random() < 0.3: col[r_] = Fraction(rng.randint(-1, 1), 4)
+            Zc.append(col)
+            if not noise: e.append(Fraction(0))
+            elif kd in "cs": e.append(-Fraction(rng.randint(1, 4), 4))
+            else: e.append(Fraction(rng.randint(-4, 4), 4))
+    for _ in range(ne):
+        sc = rng.choice([1, 2, 4])
+        col = [Fraction(rng.randint(-1, 1), 4) if rng.random() < 0.3 else Fraction(0) for _ in range(2 * nfans)]
+        col += [Fraction(sc * rng.randint(0, 3)) for _ in range(me)]
+        if all(v == 0 for v in col[2 * nfans:]): col[2 * nfans] = Fraction(sc)
+        Zc.append(col); e.append(Fraction(rng.randint(-2, 2), 4))
+    perm = list(range(n)); rng.shuffle(perm)
+    Z = [[Fraction(0)] * n for _ in range(m)]; ev = [Fraction(0)] * n
+    for j in range(n):
+        for r_ in range(m): Z[r_][perm[j]] = Zc[j][r_]
+        ev[perm[j]] = e[j]
+    k = Fraction(rng.choice([1, 1, 2, 4]), rng.choice([1, 2, 4, 8]))
+    A = [[sum(Z[r_][i] * Z[r_][j] for r_ in range(m)) + (k if i == j else 0) for j in range(n)] for i in range(n)]
+    x = []
+    for f in range(nfans): x += [Fraction(rng.randint(3, 9)), Fraction(0)]
+    x += [Fraction(rng.randint(-3, 6)) for _ in range(me)]
+    b = [sum(Z[r_][i] * x[r_] for r_ in range(m)) + ev[i] for i in range(n)]
+    return A, b
+
+def swap_hits(A, b):
+    """(longest swap run that is followed by a further iteration: with the cold start, with the production warm start) according to the
+    reference run; None if the system is unusable (cond > 5e4)"""
+    An = flm(A); bn = np.array(fl(b))
+    c = np.linalg.cond(An)
+    if not np.isfinite(c) or c > 5e4: return None
+    try: u = np.linalg.solve(An, bn)
+    except np.linalg.LinAlgError: return None
+    out = []
+    for pin in (None, u > 0):
+        if pin is not None and not pin.any(): out.append(0); continue
+        d, path = ref_path(An, bn, pin)
+        out.append(swaps_then_more(path) if d is not None else 0)
+    return out
+
+CORPUS_DIR = os.path.join(os.path.dirname(os.path.dirname(os.path.abspath(__file__))), "replays", "C05", "corpus")
+def corpus_swap_systems():
+    """the systems of replays/C05/corpus/swap_*.json (found offline by searching random correlated / PSF-like / low-rank families)"""
+    import glob, json
+    out = []
+    for p in sorted(glob.glob(os.path.join(CORPUS_DIR, "swap_*.json"))):
+        inp = json.load(open(p))["input"]
+        if "A" in inp: out.append(([[F(x) for x in r] for r in inp["A"]], [F(x) for x in inp["b"]]))
+    return out
+
+def swap_systems(rng, count, nmax=25):
+    """`count` systems (A, b, cold_run, warm_run) whose reference path has >= 3 consecutive swap iterations with the cold start or with
+    the production warm start (alternately required); one in four is a corpus system conjugated by a random permutation"""
+    corpus = corpus_swap_systems()
+    out = 0; tries = 0
+    while out < count and tries < 400 * count:
+        tries += 1
+        if corpus and tries % 4 == 0:
+            A0, b0 = rng.choice(corpus); n = len(b0)
+            pm = list(range(n)); rng.shuffle(pm)
+            A = [[A0[pm[i]][pm[j]] for j in range(n)] for i in range(n)]; b = [b0[pm[i]] for i in range(n)]
+        else:
+            A, b = fan_system(rng, rng.randint(6, 10) if out % 5 < 2 else rng.randint(11, nmax))     # 2 in 5 small enough for the exact model run
+        h = swap_hits(A, b)
+        if h is None: continue
+        want_warm = out % 2 == 1
+        if (h[1] if want_warm else h[0]) < 3: continue
+        out += 1
+        yield A, b, h[0], h[1]
+
+def big_spd(rng, n):
+    """larger systems (n up to 25) for the specification-only stream: Gram matrices of correlated / PSF-like / low-rank columns"""
+    fam = rng.choice(["corr", "gram", "psf", "lowrank", "band"])
+    if fam in ("corr", "gram", "band"): return rand_spd(rng, n, False, fam), fam
+    if fam == "psf":
+        m = n + rng.randint(0, 4); wd = rng.randint(2, 5)
+        ker = [rng.randint(1, 4) for _ in range(2 * wd + 1)]; ker[wd] += rng.randint(1, 3)
+        Z = [[Fraction(0)] * n for _ in range(m)]
+        for j in range(n):
+            for t in range(-wd, wd + 1):
+                r = j + t + (m - n) // 2
+                if 0 <= r < m: Z[r][j] = Fraction(ker[t + wd])
+    else:
+        m = rng.choice([2, 2, 3, 4])
+        Z = [[Fraction(rng.choice([1, 1, 2, 3, 5]) * rng.randint(-1 if r else 0, 4)) for _ in range(n)] for r in range(m)]
+    k = Fraction(rng.choice([1, 2, 4]), rng.choice([1, 4, 16]))
+    return [[sum(Z[r][i] * Z[r][j] for r in range(len(Z))) + (k if i == j else 0) for j in range(n)] for i in range(n)], fam
 
 # --------------------------------------------------------------------------------------------- Coq printing
 def F(x): return Fraction(x)
@@ -230,13 +481,18 @@ class CholWatch:
             # model grow about five-fold in size per rotation (1000 s for 5 rotations), so only calls with at most 3 rotations are replayed in Coq
             size = U0.shape[0]; rot = 0
             for i in sorted(arg, reverse=True): rot += size - 1 - i; size -= 1
-            if rot > 3: STATS["chol_calls_too_deep_for_coq"] += 1; return
+            if rot > CHOL_MAXROT[0]: STATS["chol_calls_too_deep_for_coq"] += 1; return
         out = np.asarray(out, dtype=float)
         if out.ndim != 2 or out.shape[0] != out.shape[1] or not np.all(np.isfinite(out)): return     # shape / nan: reported by `note`
         CHOL_BUDGET[0] -= 1; STATS["chol_cases_in_coq"] += 1
         if kind == "ins": self.cases.append((kind, f"(KChol (KIns {self.tri(U0)} {cqv([frac(v) for v in arg])} {self.tri(out)}))"))
         else: self.cases.append((kind, f"(KChol (KDel {self.tri(U0)} {clist([cnat(i) for i in arg])} {self.tri(out)}))"))
     def coq_cases(self): return [c[1] for c in self.cases]
+    def exit_note(self):
+        """informational (goes into the replay file): the implementation left its main loop through the no_update break"""
+        if any(r and isinstance(nu, int) and isinstance(mx, int) and nu >= mx for nu, mx, r in getattr(self, "exits", [])):
+            return "note: fnnls_cholesky left its main loop through the `no_update >= max_repetitions` break (not through the loop condition)"
+        return None
     def __enter__(self):
         import autoarray.util.fnnls as fm
         self.fm = fm; self.orig = (fm.cholinsertlast, fm.choldeleteindexes)
@@ -262,6 +518,16 @@ class CholWatch:
                 watch.keep("del", U0, idx, S_, multi=len(idx) >= 2)
             return S_
         fm.cholinsertlast, fm.choldeleteindexes = ins, dele
+        # which way does the implementation leave its main loop?  (the locals of fnnls_cholesky at its return: evidence only -- the
+        # verdict is the KKT certificate on the returned vector, which is evaluated whatever the exit was)
+        self.exits = []
+        code = getattr(getattr(fm, "fnnls_cholesky", None), "__code__", None)
+        def prof(frame, event, arg):
+            if event == "return" and frame.f_code is code:
+                loc = frame.f_locals
+                watch.exits.append((loc.get("no_update"), loc.get("max_repetitions"), arg is not None))
+        import sys
+        self.old_prof = sys.getprofile(); sys.setprofile(prof)
         return self
     def note(self, U1, want):
         STATS["chol_contract_calls"] += 1
@@ -273,7 +539,16 @@ class CholWatch:
         if not (r <= 1e-8 * max(1.0, float(np.max(np.abs(want))) if want.size else 1.0)) or lower > 1e-9:
             self.bad = f"U^T U differs from A[P,P] by {r} (below-diagonal {lower})"
     def __exit__(self, *a):
+        import sys
+        sys.setprofile(self.old_prof)
         self.fm.cholinsertlast, self.fm.choldeleteindexes = self.orig
+        E = STATS["impl_exit"]
+        for nu, mx, returned in self.exits:
+            if not returned: E["raised"] += 1
+            elif isinstance(nu, int) and isinstance(mx, int):
+                E["observed"] += 1
+                if nu >= mx: E["through_the_no_update_break"] += 1
+            else: E["not_observable_locals_renamed"] += 1
         STATS["impl_solver_runs_watched"] += 1
         STATS["impl_delete_calls"] += len(self.deleted); STATS["impl_delete_calls_2plus"] += sum(1 for k in self.deleted if k >= 2)
         if any(k >= 2 for k in self.deleted): STATS["impl_runs_deleting_2plus_in_one_step"] += 1
@@ -448,13 +723,51 @@ ORDERS = ["fm", "fmf", "ffm", "mfm", "fmm", "mf", "fmfm", "m"]     # f = non-map
 
 def gen_inputs(tier, rng):
     big = tier == "thorough"
-    CHOL_BUDGET[0] = 600 if big else 60
+    CHOL_BUDGET[0] = 600 if big else 60; CHOL_MAXROT[0] = 3 if big else 2
     # ---- the glue layer: every order of mappers / non-mapper objects with non-empty forced lists (mock objects, then Rectangular mappers)
     for i in range(160 if big else 24):
         yield gen_mock_order(rng, ORDERS[i % len(ORDERS)], i)
     for i in range(32 if big else 5):
         yield {"op": "real", "seed": rng.randrange(10 ** 9), "w_tilde": i % 3 == 2, "pos": True, "pinit": i % 2 == 0, "force": True,
                "two": False, "mockreg": True, "order": ["fm", "fmf", "mfm", "ffm", "fmm"][i % 5], "edge_image": i % 4 != 3}
+    # ---- rare active-set paths constructed deliberately: >= 3 consecutive iterations in which one parameter enters and another leaves
+    for i, (A, b, cold, warm) in enumerate(swap_systems(rng, 180 if big else 24)):
+        n = len(b); large = n > 10
+        wmask = [bool(x > 0) for x in np.linalg.solve(flm(A), np.array(fl(b)))]
+        hits = ([False] if cold >= 3 else []) + ([True] if warm >= 3 else [])
+        for w_ in hits:
+            yield {"op": "fnnls", "A": S(A), "b": Sv(b), "start": {"kind": "mask", "mask": wmask} if w_ else {"kind": "none"}, "swap": True, "big": large}
+        if i % 3 == 0:
+            for w_ in hits: yield {"op": "posonly", "A": S(A), "b": Sv(b), "uses_p": w_, "swap": True, "big": large, "via_config": i % 2 == 0}
+        else:        # the same system through aa.Inversion: identity mapping matrix, regularization A - I; i % 3 == 2: the system is what is
+            # left after the forced (edge) parameters are removed from a larger one
+            extra = sorted(rng.sample(range(n + 2), 2)) if i % 3 == 2 else []
+            N = n + len(extra); kept = [j for j in range(N) if j not in extra]
+            Af = [[Fraction(0)] * N for _ in range(N)]; bf = [Fraction(rng.randint(-6, 6)) for _ in range(N)]
+            for a_, ia in enumerate(kept):
+                bf[ia] = b[a_]
+                for c_, ic in enumerate(kept): Af[ia][ic] = A[a_][c_]
+            for j in extra:
+                Af[j][j] = Fraction(N + 1)
+                for c_ in range(N):
+                    if c_ != j and rng.random() < 0.4: v = Fraction(rng.randint(-1, 1), 4); Af[j][c_] = v; Af[c_][j] = v
+            R = [[Af[r][c] - (1 if r == c else 0) for c in range(N)] for r in range(N)]
+            I_ = [[Fraction(1 if r == c else 0) for c in range(N)] for r in range(N)]
+            for w_ in hits:
+                yield {"op": "mock", "npix": N, "objs": [{"params": N, "mapper": True, "M": S(I_), "reg": S(R), "edge": extra}], "data": Sv(bf),
+                       "noise": Sv([1] * N), "order": "swap", "big": large,
+                       "settings": {"pos": True, "pinit": w_, "force": bool(extra), "edge_image": False, "source_zero": [],
+                                    "via_config": i % 4 == 1, "check": True}}
+    # ---- larger systems (n = 9..25), specification only: the KKT certificate is cheap, the exact model run is not attempted
+    for i in range(420 if big else 18):
+        n = rng.randint(9, 25)
+        A, fam = big_spd(rng, n); b = rand_rhs(rng, A, False, rng.choice(["noise", "noise", "noise", "zero", "sparse", "pos"]))
+        wmask = [bool(x > 0) for x in np.linalg.solve(flm(A), np.array(fl(b)))]
+        if i % 3 != 2:
+            yield {"op": "fnnls", "A": S(A), "b": Sv(b), "start": {"kind": "none"}, "big": True}
+            yield {"op": "fnnls", "A": S(A), "b": Sv(b), "start": {"kind": "mask", "mask": wmask}, "big": True}
+        else:
+            for uses_p in (True, False): yield {"op": "posonly", "A": S(A), "b": Sv(b), "uses_p": uses_p, "big": True}
     # ---- exactly symmetric / degenerate systems: ties in every decision, several passive entries deleted in one step
     for i, (A, b) in enumerate(sym_systems(rng, 300 if big else 36)):
         n = len(b); u = gauss(A, b)
@@ -493,8 +806,12 @@ def gen_inputs(tier, rng):
             rng.shuffle(idx)
             starts.append({"kind": "index", "index": idx})
         else: starts.append({"kind": "mask", "mask": [not w_ for w_ in warm]})
+        scale = None
+        if i % 8 == 5: scale = [rng.choice([-12, 12, 0]), rng.choice([-10, 10, 20])]      # A * 2^k, b * 2^l: tiny / huge magnitudes
         for st in starts:
-            yield {"op": "fnnls", "A": S(A), "b": Sv(b), "start": st}
+            inp = {"op": "fnnls", "A": S(A), "b": Sv(b), "start": st}
+            if scale: inp["scale"] = scale
+            yield inp
     # ---- the two wrappers
     for i in range(500 if big else 40):
         n = rng.randint(1, 7)
@@ -669,44 +986,148 @@ def run_case(inp):
 
 def mats(inp):
     A = [[F(x) for x in r] for r in inp["A"]]; b = [F(x) for x in inp["b"]]
+    if inp.get("scale"):
+        ka, kb = inp["scale"]
+        A = [[x * Fraction(2) ** ka for x in r] for r in A]; b = [x * Fraction(2) ** kb for x in b]
     return A, b
+
+LARGE = "large-system stream (n > 10): the exact model run is not attempted, specification only"
+
+def in_key(inp):
+    import json, zlib
+    return zlib.crc32(json.dumps(inp, sort_keys=True).encode())
+
+def close_raw(r1, r2, rel):
+    """two raw outcomes ('ok', array) / ('raise', name) agree within rel * max(1, |x|) (nan never agrees)"""
+    if r1[0] != r2[0]: return False
+    if r1[0] == "raise": return r1[1] == r2[1]
+    a = np.asarray(r1[1], dtype=float).ravel(); b = np.asarray(r2[1], dtype=float).ravel()
+    return a.shape == b.shape and bool(np.all(np.abs(a - b) <= rel * np.maximum(1.0, np.abs(b))))
+
+def kind_variant(key, An, bn):
+    """the same system as another KIND of argument: Fortran-ordered, a strided view of a larger buffer, read-only arrays, integer dtype"""
+    kinds = ["fortran", "view", "readonly"]
+    if An.size and np.all(An == np.round(An)) and np.all(bn == np.round(bn)) and max(np.abs(An).max(), np.abs(bn).max()) < 2 ** 50:
+        kinds += ["int", "int"]
+    k = kinds[key % len(kinds)]; n = len(bn)
+    if k == "fortran": return k, np.asfortranarray(An.copy()), bn.copy()
+    if k == "view":
+        big = np.full((2 * n, 3 * n), 7.5); big[::2, ::3] = An; bb = np.full(3 * n, -3.25); bb[::3] = bn
+        return k, big[::2, ::3], bb[::3]
+    if k == "readonly":
+        a_ = An.copy(); b_ = bn.copy(); a_.flags.writeable = False; b_.flags.writeable = False
+        return k, a_, b_
+    return k, An.astype(np.int64), bn.astype(np.int64)
+
+def same_arr(x, y):
+    x = np.asarray(x); y = np.asarray(y)
+    return x.shape == y.shape and x.dtype == y.dtype and bool(np.array_equal(x, y))
+
+def neighbours(A, b):
+    """two systems of the same shape evaluated BETWEEN two evaluations of (A, b): same b with A + diag(1..n), same A with -reversed(b)"""
+    n = len(b)
+    A1 = [[A[i][j] + (i + 1 if i == j else 0) for j in range(n)] for i in range(n)]
+    return [(A1, list(b)), (A, [-x for x in reversed(b)])]
+
+def solver_history(f, A, b, An, bn, raw, key, wrap, ill):
+    """blind spots (a), (d), (f) for one solver call  f(A_array, b_array) -> raw outcome  that has just been made with (An, bn):
+       * neighbour systems are solved in between (one case in four) and their outputs are checked against the specification in Coq,
+       * the call is repeated through the SAME array objects: same outcome,
+       * the system is passed as another kind of array: same outcome, and that argument is left unmodified.
+    `wrap(A, b, out)` prints the Coq case of an outcome.  Returns (detail or None, extra Coq cases)."""
+    H = STATS["history"]; detail = None; extra = []
+    if len(b) == 0: return None, []
+    if key % 4 == 0 and not ill and len(b) <= 10:       # (larger systems: the printed case alone costs seconds of Coq parsing)
+        for A_, b_ in neighbours(A, b):
+            r_ = out_vec(f(flm(A_), np.array(fl(b_))))
+            extra.append(f"(KSpec {wrap(A_, b_, r_)})"); H["neighbour_systems_between_evaluations"] += 1
+    raw2 = f(An, bn); H["second_evaluations_same_arrays"] += 1
+    if not close_raw(raw2, raw, 1e-12): detail = "a second evaluation through the same array objects differs from the first one"
+    k, Av, bv = kind_variant(key // 4, An, bn)
+    A0 = Av.copy(); b0 = bv.copy()
+    raw3 = f(Av, bv)
+    H["input_kind_variants"][k] = H["input_kind_variants"].get(k, 0) + 1
+    if not close_raw(raw3, raw, 1e-9): detail = detail or f"the same system passed as a {k} array gives a different outcome: {raw3[1] if raw3[0] == 'raise' else 'values differ'}"
+    if not (same_arr(Av, A0) and same_arr(bv, b0)): detail = detail or f"the {k} arguments were modified in place"
+    return detail, extra
 
 def run_fnnls(aa, inp):
     from autoarray.util import fnnls
     A, b = mats(inp); n = len(b)
-    st = inp["start"]
+    st = inp["start"]; key = in_key(inp)
     if st["kind"] == "none": pinit = None; arg = np.zeros(0, dtype=int)
     elif st["kind"] == "mask": pinit = list(st["mask"]); arg = np.array(st["mask"], dtype=bool)
     else:
         if len(st["index"]) == 0: pinit = None
         else: pinit = [j in st["index"] for j in range(n)]
         arg = np.array(st["index"], dtype=int)
-    m = Mirror(); m.fnnls(A, b, Fraction(EPS * n), pinit)
-    tally(m)
-    why = ILL if ill_conditioned(A) else (TIE if m.margin < BAND else None)
-    with CholWatch(record=why != ILL) as cw:
-        res = out_vec(call(fnnls.fnnls_cholesky, flm(A), np.array(fl(b)), arg))
+    sr = tally_path(A, b, pinit)
+    ill = ill_conditioned(A)
+    if inp.get("big"): why = ILL if ill else LARGE
+    else:
+        m = Mirror(); m.fnnls(A, b, Fraction(EPS * n), pinit)
+        tally(m)
+        why = ILL if ill else (TIE if m.margin < BAND else None)
+    An = flm(A); bn = np.array(fl(b)); A0 = An.copy(); b0 = bn.copy(); arg0 = arg.copy()
+    omit = st["kind"] == "none" and key % 2 == 1           # the shared default argument object P_initial=np.zeros(0, dtype=int)
+    def f(a_, b_): return call(fnnls.fnnls_cholesky, a_, b_) if omit else call(fnnls.fnnls_cholesky, a_, b_, arg)
+    # (the Coq replay of a Cholesky update takes exact rational square roots: only for the small-integer / quarter systems, not for
+    # scaled systems or the 1/256-unit fan systems, whose rationals explode; the numerical contract check runs on every call regardless)
+    with CholWatch(record=why not in (ILL, LARGE) and not inp.get("scale") and not inp.get("swap")) as cw:
+        raw = f(An, bn)
+    res = out_vec(raw)
     if why == ILL and cert_swamped(A, b, res): return skip_row("fnnls", "ill-conditioned and rounding error of the certificate near its tolerance")
-    coq = spec_only(f"(KFnnls {cqm(A)} {cqv(b)} {cq(F(EPS))} {copt(pinit, cbools)} {cres_vec(res)})", why)
-    return {"coq": coq, "extra_coq": cw.coq_cases(), "out": show(res), "py_ok": (False if cw.bad else None), "detail": cw.bad,
-            "kind": "fnnls:" + st["kind"] + (":sym" if inp.get("sym") else "") + (":speconly" if why else ""),
-            "nontrivial": nontrivial_system(A, b)}
+    detail = cw.bad; STATS["history"]["argument_fingerprints"] += 1
+    if not (same_arr(An, A0) and same_arr(bn, b0) and same_arr(arg, arg0)): detail = detail or "fnnls_cholesky modified one of its arguments (ZTZ, ZTx, P_initial) in place"
+    wrap = lambda A_, b_, r_: f"(KFnnls {cqm(A_)} {cqv(b_)} {cq(F(EPS))} {copt(pinit, cbools)} {cres_vec(r_)})"
+    d2, extra = solver_history(f, A, b, An, bn, raw, key, wrap, ill)
+    detail = detail or d2
+    if not same_arr(arg, arg0): detail = detail or "P_initial was modified in place"
+    coq = spec_only(wrap(A, b, res), why)
+    return {"coq": coq, "extra_coq": cw.coq_cases() + extra, "out": show(res), "py_ok": (False if detail else None), "detail": detail or cw.exit_note(),
+            "kind": "fnnls:" + st["kind"] + (":sym" if inp.get("sym") else "") + (":swap" if inp.get("swap") else "") + (":big" if inp.get("big") else "")
+                    + (":scaled" if inp.get("scale") else "") + (":speconly" if why else ""),
+            "nontrivial": bool(inp.get("big")) or nontrivial_system(A, b)}
 
 def run_posonly(aa, inp):
     from autoarray.inversion.inversion import inversion_util
-    A, b = mats(inp); n = len(b)
-    mg = margin_pos_only(A, b, inp["uses_p"])
-    if mg is None: return skip_row("posonly", "exact system singular (outside the SPD quantifier)")
-    why = ILL if ill_conditioned(A) else (TIE if mg < BAND else None)
-    settings = aa.SettingsInversion(positive_only_uses_p_initial=inp["uses_p"])
-    with CholWatch(record=why != ILL) as cw:
-        res = out_vec(call(inversion_util.reconstruction_positive_only_from, data_vector=np.array(fl(b)),
-                           curvature_reg_matrix=flm(A) if n else np.zeros((0, 0)), settings=settings))
-    if why == ILL and cert_swamped(A, b, res): return skip_row("posonly", "ill-conditioned and rounding error of the certificate near its tolerance")
-    coq = spec_only(f"(KPosOnly {cqm(A)} {cqv(b)} {cq(F(EPS))} {cbool(inp['uses_p'])} {cres_vec(res)})", why)
-    return {"coq": coq, "extra_coq": cw.coq_cases(), "out": show(res), "py_ok": (False if cw.bad else None), "detail": cw.bad,
-            "kind": "posonly:" + ("warm" if inp["uses_p"] else "cold") + (":sym" if inp.get("sym") else "") + (":speconly" if why else ""),
-            "nontrivial": n > 0 and nontrivial_system(A, b)}
+    A, b = mats(inp); n = len(b); key = in_key(inp)
+    ill = ill_conditioned(A)
+    if inp.get("big"):
+        tally_path(A, b, [bool(x > 0) for x in np.linalg.solve(flm(A), np.array(fl(b)))] if inp["uses_p"] else None)
+        why = ILL if ill else LARGE
+    else:
+        mg = margin_pos_only(A, b, inp["uses_p"])
+        if mg is None: return skip_row("posonly", "exact system singular (outside the SPD quantifier)")
+        why = ILL if ill else (TIE if mg < BAND else None)
+    fn = inversion_util.reconstruction_positive_only_from
+    default_obj = fn.__defaults__[0] if fn.__defaults__ else None
+    if inp.get("via_config"):      # settings omitted: the shared default SettingsInversion() object, which reads the pushed general.yaml
+        push_config(True, inp["uses_p"], True); settings = default_obj; STATS["history"]["default_settings_calls"] += 1
+        def f(a_, b_): return call(fn, data_vector=b_, curvature_reg_matrix=a_)
+    else:
+        settings = aa.SettingsInversion(positive_only_uses_p_initial=inp["uses_p"])
+        def f(a_, b_): return call(fn, data_vector=b_, curvature_reg_matrix=a_, settings=settings)
+    fp0 = dict(vars(settings)) if settings is not None else None
+    An = flm(A) if n else np.zeros((0, 0)); bn = np.array(fl(b)); A0 = An.copy(); b0 = bn.copy()
+    with CholWatch(record=why not in (ILL, LARGE) and not inp.get("swap")) as cw:
+        raw = f(An, bn)
+    res = out_vec(raw)
+    if why == ILL and cert_swamped(A, b, res):
+        push_config(True, True, True)
+        return skip_row("posonly", "ill-conditioned and rounding error of the certificate near its tolerance")
+    detail = cw.bad; STATS["history"]["argument_fingerprints"] += 1
+    if not (same_arr(An, A0) and same_arr(bn, b0)): detail = detail or "reconstruction_positive_only_from modified data_vector / curvature_reg_matrix in place"
+    wrap = lambda A_, b_, r_: f"(KPosOnly {cqm(A_)} {cqv(b_)} {cq(F(EPS))} {cbool(inp['uses_p'])} {cres_vec(r_)})"
+    d2, extra = solver_history(f, A, b, An, bn, raw, key, wrap, ill)
+    detail = detail or d2
+    if fp0 is not None and dict(vars(settings)) != fp0: detail = detail or "the SettingsInversion object was modified by the call"
+    if inp.get("via_config"): push_config(True, True, True)
+    coq = spec_only(wrap(A, b, res), why)
+    return {"coq": coq, "extra_coq": cw.coq_cases() + extra, "out": show(res), "py_ok": (False if detail else None), "detail": detail or cw.exit_note(),
+            "kind": "posonly:" + ("warm" if inp["uses_p"] else "cold") + (":sym" if inp.get("sym") else "") + (":swap" if inp.get("swap") else "")
+                    + (":big" if inp.get("big") else "") + (":defaultsettings" if inp.get("via_config") else "") + (":speconly" if why else ""),
+            "nontrivial": n > 0 and (bool(inp.get("big")) or nontrivial_system(A, b))}
 
 def allclose_margin_ok(s, ranges):
     """the np.allclose decisions (|x - x0| <= 1e-8 + 1e-5 |x0|) must be clear-cut: exact equality or a factor 100 away"""
@@ -744,10 +1165,14 @@ def cset(pos, pinit, force, edge_image, source_zero, check):
     return (f"(mkset {cbool(pos)} {cbool(pinit)} {cbool(force)} {cbool(edge_image)} "
             f"{clist([cnat(i) for i in source_zero])} {cbool(check)})")
 
-def inversion_rows(aa, inv, objs_desc, st, kind, nontrivial=True):
-    """common part of the mock / real Inversion cases: read A, b from the implementation, then reconstruction, dict, mapped data"""
-    A = [[frac(x) for x in r] for r in np.asarray(inv.curvature_reg_matrix, dtype=float)]
-    b = [frac(x) for x in np.asarray(inv.data_vector, dtype=float)]
+def inversion_rows(aa, inv, objs_desc, st, kind, nontrivial=True, big=False, second=None):
+    """common part of the mock / real Inversion cases: read A, b from the implementation, then reconstruction, dict, mapped data.
+    `second(st2)`: builds another Inversion from the SAME linear objects and the SAME settings object with the data negated (under the
+    configuration st2): its reconstruction is checked against the specification as well (history: objects re-used for a second input)."""
+    A_np0 = np.array(inv.curvature_reg_matrix, dtype=float); b_np0 = np.array(inv.data_vector, dtype=float)
+    fp0 = dict(vars(inv.settings))
+    A = [[frac(x) for x in r] for r in A_np0]
+    b = [frac(x) for x in b_np0]
     n = len(b)
     # decision margins of the solve that reconstruction will perform
     forced = set()
@@ -762,10 +1187,11 @@ def inversion_rows(aa, inv, objs_desc, st, kind, nontrivial=True):
     kept = [i for i in range(n) if i not in forced]
     Ak = [[A[i][j] for j in kept] for i in kept]
     why = ILL if ill_conditioned(Ak if st["pos"] else A) else None       # (an exactly singular system has cond = inf: not "ill", see below)
-    costly = st["pos"] and len(kept) > 10 and max([x.denominator for r in Ak for x in r] + [1]) > 2 ** 30
+    costly = st["pos"] and len(kept) > 10 and (big or max([x.denominator for r in Ak for x in r] + [1]) > 2 ** 30)
+    if st["pos"] and kept: tally_path(Ak, [b[i] for i in kept], [bool(x > 0) for x in np.linalg.lstsq(flm(Ak), np.array(fl([b[i] for i in kept])), rcond=None)[0]] if st["pinit"] else None)
     if costly:        # neither the exact mirror (margins) nor the model is run; a singular system is recognised by its condition number
         if not np.isfinite(cond_of(Ak)): return skip_row(kind, "exact system singular (outside the SPD quantifier)")
-        why = why or COST
+        why = why or (LARGE if big else COST)
     elif st["pos"]:
         mg = margin_pos_only(Ak, [b[i] for i in kept], st["pinit"])
         if mg is None: return skip_row(kind, "exact system singular (outside the SPD quantifier)")
@@ -789,13 +1215,30 @@ def inversion_rows(aa, inv, objs_desc, st, kind, nontrivial=True):
         if st["pos"] and st["force"] and st["edge_image"] and any(o["mapper"] and o["edge"] for o in objs_desc) and zero_list:
             STATS["glue_cases_nonmapper_before_mapper_with_forced_edge_and_zero_lists"] += 1
             STATS["glue_..._of_which_" + ("rectangular_mappers" if kind.startswith("real") else "mock_mappers")] += 1
-    with CholWatch(record=why not in (ILL, COST)) as cw:
-        res = out_vec(call(lambda: inv.reconstruction))
+    with CholWatch(record=why not in (ILL, COST, LARGE) and ":swap" not in kind) as cw:
+        raw = call(lambda: inv.reconstruction)
+    res = out_vec(raw)
     cobjs = clist([cobj(o["params"], o["mapper"], o["edge"], o["Mq"]) for o in objs_desc])
     cs = cset(st["pos"], st["pinit"], st["force"], st["edge_image"], st["source_zero"], st["check"])
     if why == ILL and cert_swamped(A, b, res): return skip_row(kind, "ill-conditioned and rounding error of the certificate near its tolerance")
     coq = spec_only(f"(KRecon {cs} {cobjs} {cqm(A)} {cqv(b)} {cq(F(EPS))} {cres_vec(res)})", why)
-    extra = cw.coq_cases(); py_ok = False if cw.bad else None; detail = cw.bad
+    extra = cw.coq_cases(); detail = cw.bad
+    # history: the solve leaves the system held by the Inversion and the settings object as they were; a second read gives the same vector
+    H = STATS["history"]; H["argument_fingerprints"] += 1
+    if not (same_arr(np.array(inv.curvature_reg_matrix, dtype=float), A_np0) and same_arr(np.array(inv.data_vector, dtype=float), b_np0)):
+        detail = detail or "reconstruction modified curvature_reg_matrix / data_vector in place"
+    if dict(vars(inv.settings)) != fp0: detail = detail or "the SettingsInversion object was modified by the solve"
+    if not close_raw(call(lambda: inv.reconstruction), raw, 0.0): detail = detail or "a second read of .reconstruction differs from the first"
+    H["second_evaluations_same_arrays"] += 1
+    c_full = cond_of(A); c_kept = cond_of(Ak)
+    if second is not None and not big and n and kept and max(c_full, c_kept) <= 1e5:
+        st2 = dict(st)
+        if st.get("via_config"): st2["pos"] = not st["pos"]; H["second_inversions_config_flipped"] += 1
+        A2, b2, res2 = second(st2); H["second_inversions_same_objects"] += 1
+        cs2 = cset(st2["pos"], st2["pinit"], st2["force"], st2["edge_image"], st2["source_zero"], st2["check"])
+        cobjs2 = clist([cobj(o["params"], o["mapper"], o["edge"], o["Mq"]) for o in objs_desc])
+        extra.append(f"(KSpec (KRecon {cs2} {cobjs2} {cqm(A2)} {cqv(b2)} {cq(F(EPS))} {cres_vec(res2)}))")
+    py_ok = False if detail else None
     out = {"reconstruction": show(res)}
     if res[0] == "ok":
         s = res[1]
@@ -812,7 +1255,7 @@ def inversion_rows(aa, inv, objs_desc, st, kind, nontrivial=True):
         # keys of the dictionaries are the linear objects, in order
         if list(rd.keys()) != list(inv.linear_obj_list) or list(md.keys()) != list(inv.linear_obj_list):
             py_ok = False; detail = "dictionary keys are not the linear objects in order"
-    return {"coq": coq, "extra_coq": extra, "out": out, "py_ok": py_ok, "detail": detail,
+    return {"coq": coq, "extra_coq": extra, "out": out, "py_ok": py_ok, "detail": detail or cw.exit_note(),
             "kind": kind + (":pos" if st["pos"] else ":posneg") + (":force" if st["pos"] and st["force"] else "")
                     + (":raise" if res[0] == "raise" else "") + (":speconly" if why else ""), "nontrivial": nontrivial}
 
@@ -831,10 +1274,8 @@ def run_mock(aa, inp):
     npix = inp["npix"]; st = dict(inp["settings"])
     m = np.ones((npix + 2, 3), dtype=bool); m[1:npix + 1, 1] = False       # a column of npix unmasked pixels
     mask = aa.Mask2D(mask=m, pixel_scales=1.0)
-    data = aa.Array2D(values=fl(inp["data"]), mask=mask)
     noise = aa.Array2D(values=fl(inp["noise"]), mask=mask)
     conv = aa.Convolver(mask=mask, kernel=aa.Kernel2D.no_mask(values=[[0., 0., 0.], [0., 1., 0.], [0., 0., 0.]], pixel_scales=1.0))
-    ds = aa.DatasetInterface(data=data, noise_map=noise, convolver=conv)
     grid = aa.Grid2D.from_mask(mask=mask)
     objs = []; desc = []
     for o in inp["objs"]:
@@ -846,8 +1287,19 @@ def run_mock(aa, inp):
             objs.append(aa.m.MockLinearObjFuncList(parameters=o["params"], grid=grid, mapping_matrix=flm(M), regularization=reg))
         desc.append({"params": o["params"], "mapper": o["mapper"], "edge": list(o["edge"]), "Mq": M})
     settings = make_settings(aa, st, use_w_tilde=False)
-    inv = aa.Inversion(dataset=ds, linear_obj_list=objs, settings=settings)
-    row = inversion_rows(aa, inv, desc, st, "mock" + (":" + inp["order"] if inp.get("order") else ""))
+    def build(sign):
+        data = aa.Array2D(values=[sign * v for v in fl(inp["data"])], mask=mask)
+        return aa.Inversion(dataset=aa.DatasetInterface(data=data, noise_map=noise, convolver=conv), linear_obj_list=objs, settings=settings)
+    def second(st2):
+        if st2.get("via_config"): push_config(st2["pos"], st2["pinit"], st2["check"])
+        inv2 = build(-1.0)
+        A2 = [[frac(x) for x in r] for r in np.asarray(inv2.curvature_reg_matrix, dtype=float)]
+        b2 = [frac(x) for x in np.asarray(inv2.data_vector, dtype=float)]
+        res2 = out_vec(call(lambda: inv2.reconstruction))
+        if st2.get("via_config"): push_config(st["pos"], st["pinit"], st["check"])
+        return A2, b2, res2
+    inv = build(1.0)
+    row = inversion_rows(aa, inv, desc, st, "mock" + (":" + inp["order"] if inp.get("order") else ""), big=bool(inp.get("big")), second=second)
     push_config(True, True, True)
     return row
 
